@@ -24,7 +24,7 @@ def extra_lines(rng, tier):
         # decimal-length boundaries 10^k - 2 .. 10^k + 2, word boundaries, and random 64-bit values
         k = rng.randint(1, 19)
         g0 = rng.choice([0, 0, 10 ** k - 2, 10 ** k - 2, 10 ** k, 10 ** k + rng.randint(0, 10 ** max(k - 2, 0)),
-                         (1 << 32) - 2, (1 << 53) - 1, (1 << 64) - 3, rng.randint(0, (1 << 64) - 50)])
+                         (1 << 32) - 2, (1 << 53) - 1, (1 << 53) + 1, (1 << 53) + 3, (1 << 64) - 3, rng.randint(0, (1 << 64) - 50)])
         ns = rng.choice(NAMESPACES + [str(uuid.UUID(int=rng.getrandbits(128)))])
         out.append("g%d|100||%s|%s%d|mode=O,proj=gen+map+tk,gen0=%d,ns=%s" % (i, threads, rng.choice("rp"), rng.randint(1, 10 ** 9), g0, ns))
     return out
@@ -42,6 +42,10 @@ def judge_repro(rec, prog, info):
             if n != "1":
                 return "generator advanced by %s in one step" % n
             want.append(int(old))
+    g0 = [int(x[5:]) for x in prog["flags"].split(",") if x.startswith("gen0=")]
+    if want and g0 and want[0] != g0[0]:
+        return ("a generator restored from the serialized state of one that had issued %d ids continues at counter %d: it does not issue "
+                "the ids another generator with this namespace issues after the same number of calls" % (g0[0], want[0]))
     if want and want != [(want[0] + i) % (1 << 64) for i in range(len(want))]:
         return "generator counters handed out (in trace order) are not c0, c0+1, ...: %s" % want[:10]
     for tag, rest in rec["ev"]:
